@@ -534,7 +534,7 @@ def _arg_sharing(ctx, f, arg):
 
 
 # ---------------------------------------------------------------------------
-@rule("ORD3", ["C06", "C07"])
+@rule("ORD3", ["C06", "C07", "C18"])
 def ord3(ctx, pid):
     """_prune_on_success: pruning is applied only on the resumed-normally outcome; the pending
     set is reset on every exit; every public mutator runs inside that context."""
